@@ -263,9 +263,10 @@ func init() {
 		Quick: []Job{
 			{H: "H_C03_Wait", K: 30, U: 3, Covers: 2},
 			{H: "H_C03_WaitErr", K: 30, U: 3, Covers: 1},
+			{H: "H_C03_WaitErrCancel", K: 30, U: 3, Covers: 2},
 			{H: "H_C03_Generations", K: 20, U: 3},
 		},
-		Bounds:  "1-2 waiters, 1-2 broadcasting critical sections through HoldLock / TryHoldLock / HoldLockMaybeAsync (incl. its goroutine slow path), cancellation of the waiter at any moment; generation harness with a concurrent third party; K<=30, U=3",
+		Bounds:  "1-2 waiters, 1-2 broadcasting critical sections through HoldLock / TryHoldLock / HoldLockMaybeAsync (incl. its goroutine slow path), cancellation of the waiter at any moment (also of a waiter whose predicate fails: the predicate error wins once it was returned); generation harness with a concurrent third party; K<=30, U=3",
 		Outside: "more than 2 waiters / 3 broadcasters",
 	}
 
@@ -400,6 +401,7 @@ func init() {
 		Quick: []Job{
 			{H: "H_C18_Limit1Small", K: 34, U: 3, Preempt: 1, TimeoutSec: 900},
 			{H: "H_C18_Unlimited", K: 34, U: 3},
+			{H: "H_C18_WaitIdleErrCh", K: 34, U: 3, Preempt: 1},
 			{H: "H_C18_Limit2Small", K: 34, U: 4, Preempt: 2, TimeoutSec: 700, QueryMs: 400000},
 			{H: "H_C18_InitialWatch", K: 34, U: 4},
 		},
